@@ -190,6 +190,11 @@ func init() {
 		c.op("shutdown h1idle=0 h2open=0 stalled=0 inflight=0 early=1 twice=0")
 		c.op("shutdown h1idle=0 h2open=0 stalled=0 inflight=0 early=0 twice=1")
 		c.op("shutdown h1idle=1 h2open=1 stalled=0 inflight=0 early=0 twice=0 hold=1")
+		// the binary itself (Run: flags, signal handling, ListenAndServe) stopped by each signal the statement names
+		for _, sig := range []string{"TERM", "INT", "TERM", "INT"} {
+			c.tag("binary-signal:" + sig)
+			c.op("binsig sig=" + sig)
+		}
 		for i := 0; i < c.count; i++ {
 			r := c.rng.fork()
 			c.op(fmt.Sprintf("shutdown h1idle=%d h2open=%d stalled=%d inflight=%d early=%d twice=%d hold=%d", r.intn(4), r.intn(4), r.intn(4), r.intn(2), b2i(r.chance(1, 8)), r.intn(2), b2i(r.chance(1, 3))))
